@@ -13,7 +13,8 @@
 //!   custom <type>    Event::custom(type, "d")  -> K | E
 //!   conv <n1> <n2>   see conv()
 //!   stress <threads> <events-per-thread> [h]   full server over loop-back, sender threads (h: the client half-closes
-//!                         after its request and keeps reading)
+//!                         after its request and keeps reading; r instead of h: the server's permit is revoked
+//!                         once the stream is open, before the first event)
 //! Observation per step:  <new wire bytes as x-hex or ->,<flags>,<state>
 //!   flags: one char per EventSender ever created: 1 connected, 0 disconnected, x dropped
 //!   state: A copy running, T CopyResult::Ok, R ReaderErr, W WriterErr
@@ -263,7 +264,7 @@ fn conv(n1: usize, n2: usize) -> String {
     }
 }
 
-fn stress(nt: usize, per: usize, half_close: bool) -> String {
+fn stress(nt: usize, per: usize, half_close: bool, revoke_early: bool) -> String {
     use std::io::{Read, Write};
     let executor = safina::executor::Executor::new(2, 4).unwrap();
     let holder: Arc<Mutex<Option<EventSender>>> = Arc::new(Mutex::new(None));
@@ -294,6 +295,12 @@ fn stress(nt: usize, per: usize, half_close: bool) -> String {
         }
         std::thread::sleep(std::time::Duration::from_millis(1));
     };
+    if revoke_early {
+        // the server is told to stop while the stream is open and before any event was sent: the stream goes on for as
+        // long as a sender is connected, every event is delivered and the terminating chunk comes at the end
+        permit.revoke();
+        std::thread::sleep(std::time::Duration::from_millis(30));
+    }
     let accepted = Arc::new(Mutex::new(vec![0usize; nt]));
     let mut th = Vec::new();
     for t in 0..nt {
@@ -382,7 +389,7 @@ fn main() {
             Err(_) => "E".to_string(),
         },
         "conv" => conv(toks[1].parse().unwrap(), toks[2].parse().unwrap()),
-        "stress" => stress(toks[1].parse().unwrap(), toks[2].parse().unwrap(), toks.get(3) == Some(&"h")),
+        "stress" => stress(toks[1].parse().unwrap(), toks[2].parse().unwrap(), toks.get(3) == Some(&"h"), toks.get(3) == Some(&"r")),
         _ => panic!("bad case"),
     });
 }
